@@ -415,6 +415,56 @@ def nat_cast_on_error(h):
             shutil.rmtree(d, ignore_errors=True)
 
 
+def nat_limits_and_handlers(h):
+    """bounded: a delimited file LONGER than the parser's inference sample (1000 lines) with cells beyond the sample that do not cast;
+    every way of asking for casting (cast_strategy, its older spellings validate= / force_strings=) x error policy x limit_rows:
+    the loaded rows are the ones an independent pass over the file with the csv module gives"""
+    import csv, os, tempfile, shutil, warnings
+    from dataflows import Flow, load
+    N, bad = 1150, {1004: 'n/a', 1050: 'unknown'}
+    d = tempfile.mkdtemp(prefix='c13c_')
+    try:
+        p = os.path.join(d, 'amounts.csv')
+        with open(p, 'w', newline='', encoding='utf-8') as f:
+            w = csv.writer(f)
+            w.writerow(['id', 'amount', 'after'])
+            for i in range(1, N + 1):
+                w.writerow(['r%d' % i, bad.get(i, str(i * 3)), str(i)])
+
+        def expected(cast, pol, limit, strings=False):
+            out = []
+            for i in range(1, N + 1):
+                row = {'id': 'r%d' % i, 'amount': bad.get(i, str(i * 3)), 'after': str(i)}
+                if cast:
+                    row['after'] = i
+                    if i in bad:
+                        if pol == 'drop':
+                            continue
+                        row['amount'] = None if pol == 'clear' else row['amount']
+                    else:
+                        row['amount'] = i * 3
+                out.append(row)
+            return out if limit is None else out[:max(limit, 0)]
+        ways = [('nothing', dict(cast_strategy=load.CAST_DO_NOTHING), False), ('schema', dict(cast_strategy=load.CAST_WITH_SCHEMA), True),
+                ('validate=True', dict(validate=True), True), ('strings', dict(cast_strategy=load.CAST_TO_STRINGS), False),
+                ('force_strings=True', dict(force_strings=True), False)]
+        for limit in (None, 0, 5, 1100, 5000):
+            for label, kw, cast in ways:
+                for pol in (('ignore', 'clear', 'drop') if cast else ('ignore',)):
+                    hd = {'ignore': load.ERRORS_IGNORE, 'clear': load.ERRORS_CLEAR, 'drop': load.ERRORS_DROP}[pol]
+                    with warnings.catch_warnings():
+                        warnings.simplefilter('ignore')
+                        got = h.run(lambda: Flow(load(p, limit_rows=limit, on_error=hd, **kw)).results(on_error=None)[0][0])
+                    want = expected(cast, pol, limit)
+                    ok = got[0] == 'ok' and len(got[1]) == len(want) and all(
+                        {k: (str(v) if not cast and v is not None else v) for k, v in g.items()} == w_ for g, w_ in zip(got[1], want))
+                    first = next((i for i, (g, w_) in enumerate(zip(got[1], want)) if g != w_), None) if got[0] == 'ok' else None
+                    h.check(ok, P + 'load.py::load', (label, pol, limit), (len(want), want[first] if first is not None else None),
+                            (len(got[1]), got[1][first] if first is not None else None) if got[0] == 'ok' else got[:2])
+    finally:
+        shutil.rmtree(d, ignore_errors=True)
+
+
 ITEMS = [
     Item('load.limiter', sym_limiter, [('wrappers', nat_wrappers)], P + 'load.py::load.limiter'),
     Item('load.stringer', sym_stringer, [], P + 'load.py::load.stringer'),
@@ -424,6 +474,6 @@ ITEMS = [
     Item('ResourceMatcher', K10.ITEMS[0].symbolic, [], 'dataflows/helpers/resource_matcher.py::ResourceMatcher.match'),
     Item('schema_validator', K14.sym_schema_validator, [], 'dataflows/base/schema_validator.py::schema_validator'),
     Item('headers', sym_rename_duplicate_headers, [('de-duplication', nat_headers), ('collision', nat_headers_finding)], P + 'load.py::load.rename_duplicate_headers'),
-    Item('csv', None, [('fidelity', nat_csv), ('cast-on-error', nat_cast_on_error)], P + 'load.py::load'),
+    Item('csv', None, [('fidelity', nat_csv), ('cast-on-error', nat_cast_on_error), ('limits-and-handlers', nat_limits_and_handlers)], P + 'load.py::load'),
     Item('recorded-findings', None, [('bounded', KF.nat_findings_c13)], 'dataflows/processors/load.py::load.safe_process_datapackage'),
 ]
